@@ -48,7 +48,7 @@ func main() {
 	repo := flag.String("repo", "/repo", "repository root")
 	out := flag.String("out", "", "output directory")
 	hooks := flag.String("hooks", "", "directory with files to add to package leveldb (sub-directories name sub-packages)")
-	stmt := flag.String("stmt", "", "comma-separated package dirs that get statement-granularity points")
+	stmt := flag.String("stmt", "", "comma-separated package dirs (all files) or single files (pkgdir/file.go) that get statement-granularity points")
 	flag.Parse()
 	if *out == "" {
 		fmt.Fprintln(os.Stderr, "vrewrite: -out required")
@@ -75,7 +75,7 @@ func main() {
 			rel := filepath.Join(p, n)
 			src := filepath.Join(dir, n)
 			dst := filepath.Join(*out, rel)
-			changed, err := rewriteFile(src, dst, rel, stmtPk[p])
+			changed, err := rewriteFile(src, dst, rel, stmtPk[p] || stmtPk[filepath.ToSlash(rel)])
 			if err != nil {
 				fatal(fmt.Errorf("%s: %v", rel, err))
 			}
@@ -307,8 +307,7 @@ func rewriteFile(src, dst, rel string, stmtMode bool) (bool, error) {
 	if r.needVS || nodeCount(f) != before {
 		changed = true
 	}
-	if r.stmtMode {
-		r.insertStmtPoints(f)
+	if r.stmtMode && r.insertStmtPoints(f) > 0 {
 		r.needVS = true
 		changed = true
 	}
@@ -474,9 +473,13 @@ func (r *rw) selectStmt(n *ast.SelectStmt) (ast.Stmt, error) {
 
 // insertStmtPoints puts vsched.Stmt() before every statement of every function body
 // (statement-granularity interleaving for small lock-protected structures).
-func (r *rw) insertStmtPoints(f *ast.File) {
+func (r *rw) insertStmtPoints(f *ast.File) int {
 	var doBlock func(b *ast.BlockStmt)
-	pt := func() ast.Stmt { return &ast.ExprStmt{X: &ast.CallExpr{Fun: vsSel("Stmt")}} }
+	inserted := 0
+	pt := func() ast.Stmt {
+		inserted++
+		return &ast.ExprStmt{X: &ast.CallExpr{Fun: vsSel("Stmt")}}
+	}
 	doList := func(list []ast.Stmt) []ast.Stmt {
 		var out []ast.Stmt
 		for _, s := range list {
@@ -514,4 +517,5 @@ func (r *rw) insertStmtPoints(f *ast.File) {
 		}
 		return true
 	})
+	return inserted
 }
